@@ -73,6 +73,11 @@ pub enum Con {
     BoolLe(Vec<i64>, Vec<Lit>, i64),
     /// sum w_i * b_i == x_rhs (rhs is a plain integer variable index)
     BoolEq(Vec<i64>, Vec<Lit>, usize),
+    /// permanent clause over arbitrary atomic predicates (`Solver::add_clause`)
+    PClause(Vec<MPred>),
+    /// the 0-1 variable `b` was created with `new_literal_for_predicate(p)`: b <-> p. Not posted
+    /// (the solver links them when the literal is created); part of the reference semantics.
+    LitDef(usize, MPred),
 }
 
 #[derive(Clone, Debug, PartialEq, Eq, Hash)]
@@ -116,6 +121,8 @@ impl Con {
             Con::Conj(..) => "conjunction",
             Con::BoolLe(..) => "bool_lin_le",
             Con::BoolEq(..) => "bool_lin_eq",
+            Con::PClause(..) => "predicate_clause",
+            Con::LitDef(..) => "literal_definition",
         }
     }
     pub fn negatable(&self) -> bool {
@@ -134,7 +141,7 @@ impl Con {
     }
     /// clause / conjunction go through `add_clause` and cannot carry a tag
     pub fn taggable(&self) -> bool {
-        !matches!(self, Con::Clause(..) | Con::Conj(..))
+        !matches!(self, Con::Clause(..) | Con::Conj(..) | Con::PClause(..) | Con::LitDef(..))
     }
     pub fn views(&self) -> Vec<&View> {
         match self {
@@ -144,7 +151,7 @@ impl Con {
             Con::Max(t, r) | Con::Min(t, r) => t.iter().chain(std::iter::once(r)).collect(),
             Con::Elem(i, t, r) => std::iter::once(i).chain(t.iter()).chain(std::iter::once(r)).collect(),
             Con::Cumul(st, ..) => st.iter().collect(),
-            Con::Clause(_) | Con::Conj(_) | Con::BoolLe(..) | Con::BoolEq(..) => vec![],
+            Con::Clause(_) | Con::Conj(_) | Con::BoolLe(..) | Con::BoolEq(..) | Con::PClause(_) | Con::LitDef(..) => vec![],
         }
     }
     pub fn scope(&self) -> BTreeSet<usize> {
@@ -154,6 +161,11 @@ impl Con {
             Con::BoolEq(_, l, r) => {
                 s.extend(l.iter().map(|l| l.0));
                 let _ = s.insert(*r);
+            }
+            Con::PClause(ps) => s.extend(ps.iter().map(|p| p.var)),
+            Con::LitDef(b, p) => {
+                let _ = s.insert(*b);
+                let _ = s.insert(p.var);
             }
             _ => {}
         }
@@ -207,6 +219,8 @@ impl Con {
             Con::BoolEq(w, l, r) => {
                 w.iter().zip(l).map(|(w, l)| if lit_true(l, a) { *w as i128 } else { 0 }).sum::<i128>() == a[*r] as i128
             }
+            Con::PClause(ps) => ps.iter().any(|p| p.holds(a)),
+            Con::LitDef(b, p) => (a[*b] == 1) == p.holds(a),
         }
     }
 }
@@ -424,6 +438,31 @@ fn views_j(v: &[View]) -> Json {
 fn lits_j(l: &[Lit]) -> Json {
     Json::arr(l, |l| Json::Arr(vec![Json::int(l.0 as i64), Json::Bool(l.1)]))
 }
+fn mpred_j(p: &MPred) -> Json {
+    Json::Arr(vec![
+        Json::int(p.var as i64),
+        Json::str(match p.k {
+            PK::Ge => ">=",
+            PK::Le => "<=",
+            PK::Eq => "==",
+            PK::Ne => "!=",
+        }),
+        Json::int(p.v),
+    ])
+}
+fn j_mpred(j: &Json) -> MPred {
+    let a = j.as_arr();
+    MPred {
+        var: a[0].as_usize(),
+        k: match a[1].as_str() {
+            ">=" => PK::Ge,
+            "<=" => PK::Le,
+            "==" => PK::Eq,
+            _ => PK::Ne,
+        },
+        v: a[2].as_i64(),
+    }
+}
 fn j_view(j: &Json) -> View {
     let a = j.as_arr();
     View { var: a[0].as_usize(), s: a[1].as_i64(), o: a[2].as_i64() }
@@ -460,6 +499,8 @@ impl Con {
             Con::Clause(l) | Con::Conj(l) => vec![k, lits_j(l)],
             Con::BoolLe(w, l, r) => vec![k, Json::ints(w), lits_j(l), Json::int(*r)],
             Con::BoolEq(w, l, r) => vec![k, Json::ints(w), lits_j(l), Json::int(*r as i64)],
+            Con::PClause(ps) => vec![k, Json::arr(ps, mpred_j)],
+            Con::LitDef(b, p) => vec![k, Json::int(*b as i64), mpred_j(p)],
         };
         Json::Arr(a)
     }
@@ -486,6 +527,8 @@ impl Con {
             "conjunction" => Con::Conj(j_lits(&a[1])),
             "bool_lin_le" => Con::BoolLe(j_ints(&a[1]), j_lits(&a[2]), a[3].as_i64()),
             "bool_lin_eq" => Con::BoolEq(j_ints(&a[1]), j_lits(&a[2]), a[3].as_usize()),
+            "predicate_clause" => Con::PClause(a[1].as_arr().iter().map(j_mpred).collect()),
+            "literal_definition" => Con::LitDef(a[1].as_usize(), j_mpred(&a[2])),
             k => panic!("unknown constraint kind {k}"),
         }
     }
